@@ -188,6 +188,52 @@ for k, (a, w) in sorted(att.items()):
     out.append("(define-fun ral_attest_off_%s () Int %d)" % (k, a))
     out.append("(define-fun ral_attest_len_%s () Int %d)" % (k, w))
 
+# ---------------- governance payloads: module ids, action ids, field offsets and total sizes ----------------
+tbg = read("alephium/contracts/token_bridge/token_bridge_governance.ral")
+out.append("; @block xlang_gov requires Slice_Int")
+def module_pred(name, src, const):
+    m = re.search(r"const\s+%s\s*=\s*0x([0-9a-fA-F]+)" % const, src)
+    if not m: die("%s constant not found" % const)
+    val = int(m.group(1), 16)
+    bs = val.to_bytes(32, "big")
+    conj = " ".join("(= (select (sarr_Int b) %d) %d)" % (i, bs[i]) for i in range(32))
+    out.append("(define-fun %s ((b Slice_Int)) Bool (and (>= (slen_Int b) 32) %s))" % (name, conj))
+module_pred("ral_is_core_module", ral, "CoreModule")
+module_pred("ral_is_tb_module", tbg, "TokenBridgeModule")
+if not re.search(r"u256From32Byte!\(byteVecSlice!\(payload,\s*0,\s*32\)\)\s*==\s*coreModule", ral): die("governance.ral: module check at payload[0:32] not found")
+if not re.search(r"byteVecSlice!\(payload,\s*32,\s*33\)\s*==\s*action", ral): die("governance.ral: action check at payload[32:33] not found")
+def actions(prefix, src, where):
+    m = re.search(r"enum ActionId\s*\{(.*?)\}", src, re.S)
+    if not m: die(where + ": enum ActionId not found")
+    for nm, hx in re.findall(r"(\w+)\s*=\s*#([0-9a-fA-F]+)", m.group(1)):
+        out.append("(define-fun %s_%s () Int %d)" % (prefix, nm, int(hx, 16)))
+actions("ral_core_action", ral, "governance.ral")
+actions("ral_tb_action", tbg, "token_bridge_governance.ral")
+def gov_fn(tag, src, fname, where):
+    m = re.search(r"fn %s\(.*?\n    \}" % fname, src, re.S)
+    if not m: die("%s: function %s not found" % (where, fname))
+    body = m.group(0)
+    for var, a, b in re.findall(r"let\s+(\w+)\s*=\s*(?:\w+!\()?byteVecSlice!\(payload,\s*(\d+),\s*(\d+)\)", body):
+        out.append("(define-fun ral_%s_%s_off () Int %s)" % (tag, var, a))
+        out.append("(define-fun ral_%s_%s_end () Int %s)" % (tag, var, b))
+    ms = re.search(r"size!\(payload\)\s*==\s*(\d+)", body)
+    mp = re.search(r"let payloadSize\s*=\s*(\d+)\s*\+\s*(\w+)(?:\s*\*\s*(\d+))?", body)
+    if ms:
+        out.append("(define-fun ral_%s_size_base () Int %s)" % (tag, ms.group(1)))
+        out.append("(define-fun ral_%s_size_per () Int 0)" % tag)
+    elif mp and re.search(r"size!\(payload\)\s*==\s*payloadSize", body):
+        out.append("(define-fun ral_%s_size_base () Int %s)" % (tag, mp.group(1)))
+        out.append("(define-fun ral_%s_size_per () Int %s)" % (tag, mp.group(3) or "1"))
+    else:
+        die("%s: %s: payload size assertion not found" % (where, fname))
+gov_fn("newGuardianSet", ral, "submitNewGuardianSet", "governance.ral")
+gov_fn("setMessageFee", ral, "submitSetMessageFee", "governance.ral")
+gov_fn("transferFees", ral, "submitTransferFees", "governance.ral")
+gov_fn("registerChain", tbg, "parseAndVerifyRegisterChain", "token_bridge_governance.ral")
+gov_fn("destroySequences", tbg, "destroyUnexecutedSequenceContracts", "token_bridge_governance.ral")
+gov_fn("minConsistency", tbg, "updateMinimalConsistencyLevel", "token_bridge_governance.ral")
+gov_fn("refundAddress", tbg, "updateRefundAddress", "token_bridge_governance.ral")
+
 # ---------------- encBody: the body layout as a spec function, built from the Solidity table ----------------
 # (definitional axioms; the Ralph table is compared with it by lemma offset_tables_agree)
 args = [("ts","Int","timestamp"),("no","Int","nonce"),("ec","Int","emitterChain"),("tc","Int","targetChain"),
